@@ -155,6 +155,25 @@ def check_c11(tier, seed):
                     gen(tg, {"GOMAXPROCS": gmp})
                     if not compare("fresh-run: fresh directory, GOMAXPROCS=%s" % gmp, ["fresh run", "fresh run again with GOMAXPROCS=" + gmp]):
                         break
+            # the same sources at another absolute path (nothing of the location may leak into the output)
+            if tg is targets[0] or tier != "quick":
+                moved = M.root + "_moved"
+                shutil.rmtree(moved, ignore_errors=True)
+                clean()
+                shutil.copytree(M.root, moved)
+                try:
+                    runs += 1
+                    C.run([cli] + tg, cwd=moved, extra_env=dict(env), timeout=1800)
+                    for o, a in zip(outs(tg), ref):
+                        mo = os.path.join(moved, os.path.relpath(o, M.root))
+                        b = open(mo, "rb").read() if os.path.exists(mo) else b""
+                        if a != b:
+                            R.finding("nondeterministic:location", "output of %s differs when the same sources live at another absolute path" % os.path.relpath(o, M.root),
+                                      {"kind": "input", "failing_input": {"files": tg}, "history": ["generate in directory A", "copy the sources to directory B", "generate there"],
+                                       "reproduce": "generate the same package at two different absolute paths and diff the outputs"})
+                            break
+                finally:
+                    shutil.rmtree(moved, ignore_errors=True)
             # leftover output of the previous run
             clean(); gen(tg); gen(tg)
             compare("leftover: second run with the previous output present", ["fresh run", "run again without deleting *_band.go"])
